@@ -50,6 +50,12 @@ func tokens(src []byte, from int) ([]tok, error) {
 		if t == token.COMMENT {
 			lit = normComment(lit)
 		}
+		if t == token.INT {
+			// gofumpt rewrites legacy octal literals (0644 -> 0o644) for go >= 1.13: compare integers by value
+			if v, err := strconv.ParseInt(strings.ReplaceAll(lit, "_", ""), 0, 64); err == nil {
+				lit = strconv.FormatInt(v, 10)
+			}
+		}
 		if !t.IsLiteral() && t != token.COMMENT {
 			lit = ""
 		}
